@@ -26,6 +26,7 @@ def g_dir():
     G.append(Grammar('unused', ['S', 'U'], ['a', 'u'], 'S', [('S', ['a']), ('S', ['a', 'S']), ('U', ['u'])], note='unused nonterminal and term'))
     G.append(Grammar('nullrun', ['S', 'A', 'B'], ['a', 'b', 'c'], 'S',
         [('S', ['A', 'B', 'a']), ('A', []), ('A', ['b']), ('B', []), ('B', ['c'])], note='several nullable symbols in a row before a term'))
+    G.append(Grammar('nrun4', ['S', 'A'], ['a'], 'S', [('S', ['A', 'A', 'A', 'A', 'a']), ('A', [])], note='four nullable symbols before the first term (stack capacity arithmetic)'))
     G.append(Grammar('mutual', ['S', 'T'], ['a', 'b', 'c', 'd'], 'S', [('S', ['a', 'T']), ('S', ['b']), ('T', ['c', 'S']), ('T', ['d'])], note='mutual recursion'))
     G.append(Grammar('mutleft', ['A', 'B'], ['a', 'b', 'c', 'd'], 'A', [('A', ['B', 'a']), ('A', ['c']), ('B', ['A', 'b']), ('B', ['d'])], note='mutually left-recursive nonterminals'))
     G.append(Grammar('pal', ['S'], ['a', 'b'], 'S', [('S', ['a', 'S', 'a']), ('S', ['b'])], note='centre-marked nesting'))
@@ -100,3 +101,26 @@ def g_rand(seed, count, want='conflict_free', max_tries=4000):
         if want == 'conflict_free' and not productive(g, lr): continue
         out.append(g)
     return out
+
+# ------------------------------------------------------------------ term sets for the generated lexer (T-sets)
+def CH(c): return dict(kind='char', c=ord(c), name=c)
+def ST(s): return dict(kind='str', s=s, name=s)
+def RE(p, name): return dict(kind='regex', pattern=p, name=name)
+
+def g_lex(name, tks, note=''):
+    """S -> S K | K ; K -> t_i for every term: every token sequence is syntactically valid, the functor log is the token stream"""
+    terms = [(t['name'], 0, 'none') for t in tks]
+    rules = [('S', ['S', 'K']), ('S', ['K'])] + [('K', [t['name']]) for t in tks]
+    return Grammar(name, ['S', 'K'], terms, 'S', rules, note=note, tkinds=tks)
+
+def t_sets():
+    return [
+        g_lex('kwid', [ST('if'), RE('[a-z]+', 'id')], 'keyword listed before identifier: tie goes to the keyword, longer identifier wins'),
+        g_lex('idkw', [RE('[a-z]+', 'id'), ST('if')], 'identifier listed first: the keyword can never win a tie'),
+        g_lex('eqeq', [CH('='), ST('=='), CH('+'), ST('++')], 'operators that are prefixes of longer operators'),
+        g_lex('kwx', [ST('if'), ST('ifx'), RE('[a-z][a-z0-9]*', 'id')], 'keyword prefix of keyword prefix of identifier'),
+        g_lex('num', [RE('[0-9]+', 'num'), CH('.'), RE('[a-z]', 'letter')], 'numbers and single letters'),
+        g_lex('abcd', [ST('ab'), ST('abcd'), CH('c')], 'longest match needs back-off: abc must lex as ab c'),
+        g_lex('nlterm', [RE('[a\\x0a]+', 'anl'), CH('b')], 'a term whose lexeme may contain newlines'),
+        g_lex('hi', [RE('[\\x80-\\xff]+', 'hi'), CH('a'), RE('\\x00', 'nul')], 'bytes >= 0x80 and NUL as term characters'),
+    ]
